@@ -101,19 +101,44 @@ QValue(v, q) == CASE q \in Models -> Coord(v, q)
                   [] q = "dist_origin" -> <<R(v[1], S(v))>>       \* cosh d(v, origin) = v1 / s
                   [] q = "dist_rebuilt" -> <<ROne>>               \* cosh d(v, v) = 1: the second object is the same point
                   [] q = "origin_to" -> RVec(v)                   \* image of the origin under the returned isometry
+SetNames == {"set:" \o m : m \in Models}
+SetModel(q) == CHOOSE m \in Models : q = "set:" \o m
 InHist(v) == \A i \in 1..(N + 1) : v[i] <= BHist /\ 0 - v[i] <= BHist
+\* an entry of `held` is <<query, value handed out, the point the object held when it was asked, the model it was last given in>>
+NQ(h) == Cardinality({i \in 1..Len(h) : h[i][1] \notin SetNames})
 Query(q) ==
   LET y == From(chart, c) IN
-  /\ steps = 0 /\ InHist(x) /\ Len(held) < MaxQueries
+  /\ steps = 0 /\ InHist(x) /\ NQ(held) < MaxQueries
   /\ QDefined(y, q)
-  /\ held' = Append(held, <<q, QValue(y, q)>>)
+  /\ held' = Append(held, <<q, QValue(y, q), y, chart>>)
   /\ UNCHANGED <<x, chart, c, steps>>
   /\ last' = [a |-> "query", q |-> q]
 
-Next == (\E m2 \in Models : Convert(m2)) \/ (\E q \in Queries : Query(q))
+\* The live object is MOVED: its coordinates are set again through the setter of model m2 (`coords(m2, data)`), to the
+\* coordinates of another point of the universe (Rot(x): spatial coordinates rotated, the one that comes first negated -- a
+\* symmetry of the universe, so the target is a point whose specified values are tabulated too).  At most one move per
+\* history, between two queries: a value computed for the old point (and possibly memoised in the object) must not
+\* answer for the new one, and the values handed out before the move stay the values of the OLD point.
+Rot(v) == [i \in 1..(N + 1) |-> IF i = 1 THEN v[1] ELSE IF i = 2 THEN 0 - v[N + 1] ELSE v[i - 1]]
+Assign(m2) ==
+  LET v == Rot(x) IN
+  /\ steps = 0 /\ InHist(x) /\ held # <<>> /\ NQ(held) = Len(held) /\ NQ(held) < MaxQueries
+  /\ Defined(v, m2)
+  /\ x' = v /\ chart' = m2 /\ c' = Coord(v, m2)
+  /\ held' = Append(held, <<"set:" \o m2, Coord(v, m2), v, m2>>)
+  /\ UNCHANGED steps
+  /\ last' = [a |-> "assign", m |-> m2]
 
-\* values handed out describe the point as it is now (queries are read-only, results are not windows into the object)
-HeldValid == \A i \in 1..Len(held) : held[i][2] = QValue(x, held[i][1])
+Next == (\E m2 \in Models : Convert(m2)) \/ (\E q \in Queries : Query(q)) \/ (\E m2 \in Models : Assign(m2))
+
+\* values handed out describe the point the object held when they were handed out (queries are read-only, results are not
+\* windows into the object, moving the object does not reach back into them); the last entry describes the point as it is now
+HeldValid == /\ \A i \in 1..Len(held) : IF held[i][1] \in SetNames THEN held[i][2] = Coord(held[i][3], SetModel(held[i][1]))
+                                                                  ELSE held[i][2] = QValue(held[i][3], held[i][1])
+             /\ (held # <<>> => held[Len(held)][3] = x)
+             /\ \A i \in 1..Len(held) : (\A j \in (i + 1)..Len(held) : held[j][1] \notin SetNames) => held[i][3] = x
+\* a move really moves (vacuity guard of the Assign action: the universe has points off the rotation axis)
+ASSUME \E v \in Points : Rot(v) # v /\ Rot(v) \in Points
 \* the caller's coordinates still are the coordinates of the point in the model it was built in
 \* (this is PointFixed: query steps leave c alone, so it is checked under that name)
 CallerCoordsKept == PointFixed
@@ -128,7 +153,8 @@ EmitHist == IF ~InHist(x) \/ MaxQueries = 0 THEN TRUE
             ELSE IF Len(held) = 0
             THEN PrintT("HIST " \o ToJson([k |-> "point", x |-> x, ideal |-> Ideal(x), chart |-> chart, c |-> c, cond |-> Cond(x),
                                              vals |-> [q \in {r \in Queries : QDefined(x, r)} |-> QValue(x, q)]]))
-            ELSE Len(held) < MaxQueries \/ PrintT("HIST " \o ToJson([k |-> "hist", x |-> x, chart |-> chart, qs |-> QNames]))
+            ELSE NQ(held) < MaxQueries \/ PrintT("HIST " \o ToJson([k |-> "hist", x |-> held[1][3], chart |-> held[1][4], qs |-> QNames,
+                                                                                 at |-> [i \in 1..Len(held) |-> held[i][3]]]))
 
 Emit == last'.a # "convert" \/
         PrintT("EMIT " \o ToJson([x |-> x, ideal |-> Ideal(x), from |-> [m |-> chart, c |-> c],
